@@ -6,3 +6,5 @@ import Dashu.Props.GenBitsHeap
 #print axioms Dashu.Props.GenBitsHeap.gen_clear_high_bits_large
 #print axioms Dashu.Props.GenBitsHeap.gen_clear_bit_large
 #print axioms Dashu.Props.GenBitsHeap.gen_split_bits_large
+#print axioms Dashu.Props.GenBitsHeap.gen_set_bit_small
+#print axioms Dashu.Props.GenBitsHeap.gen_set_bit
